@@ -513,6 +513,20 @@ Theorem C15_stored_zero_quorum_is_zero : forall P kf cust p cp,
 Proof. exact stored_zero_quorum_is_zero. Qed.
 Print Assumptions C15_stored_zero_quorum_is_zero.
 
+Theorem C15_tree_dequeues_undecodable_by_key :
+  sh_bad_inactive_dequeued gen_shape = true /\ sh_bad_active_dequeued_by_key gen_shape = true.
+Proof. exact tree_dequeues_undecodable_by_key. Qed.
+Print Assumptions C15_tree_dequeues_undecodable_by_key.
+
+Theorem C15_end_block_never_fails_on_tree : forall P kf b c ops s ev t stk,
+  bad_inactive_dequeued P = sh_bad_inactive_dequeued gen_shape ->
+  bad_active_dequeued_by_key P = sh_bad_active_dequeued_by_key gen_shape ->
+  Forall op_no_govsend ops ->
+  run P kf (init b c) ops = (s, ev) ->
+  end_block P kf t stk s <> None.
+Proof. exact end_block_never_fails_on_tree. Qed.
+Print Assumptions C15_end_block_never_fails_on_tree.
+
 Theorem C15_shadowed_err_matters :
   let sh := with_exec gen_shape false 0 0 1 true true in
   (ext (fst (exec_outcome_sh sh e_any s_any [m_ok; m_bad])), snd (exec_outcome_sh sh e_any s_any [m_ok; m_bad])) = ([7], SPassed) /\
